@@ -35,6 +35,7 @@ pub struct Stats {
     model_replacements: u64,
     ref_chunk_checks: u64,
     remainder_flushes: u64,
+    seeks: u64,
     single_steps: u64,
     single_refills: u64,
     single_flushes: u64,
@@ -52,6 +53,7 @@ impl Stats {
         self.model_replacements += o.model_replacements;
         self.ref_chunk_checks += o.ref_chunk_checks;
         self.remainder_flushes += o.remainder_flushes;
+        self.seeks += o.seeks;
         self.single_steps += o.single_steps;
         self.single_refills += o.single_refills;
         self.single_flushes += o.single_flushes;
@@ -403,6 +405,40 @@ macro_rules! chain_impl {
                     }
                 }
             }
+
+            /// C14 after random access: decode i symbols, record `pos()`, decode on speculatively with a
+            /// different model, `seek` back to the record, decode the rest: symbol j must again be what model j
+            /// assigns to chunk j (= what the straight-through run decoded), wherever the coder was in between.
+            pub fn seek_case(data: &[$W], models: &[Letter], alt: Letter, st: &mut Stats) {
+                use constriction::backends::Cursor;
+                use constriction::{Pos, Seek};
+                type SC = ChainCoder<$W, $S, Cursor<$W, Vec<$W>>, Vec<$W>, $P>;
+                let Some(base) = run_decode(data, models, false) else { return; };
+                let count = models.len();
+                let d = |c: &mut SC, l: Letter| -> Option<u8> { c.decode_symbol(Part::<$W, $P> { c: l.c as $W, p: l.p as $W }).ok() };
+                for i in 0..count {
+                    let Ok(mut c) = SC::from_binary(Cursor::new_at_write_end(data.to_vec())) else { return; };
+                    let mut ok = true;
+                    for j in 0..i { if d(&mut c, models[j]) != base[j] || base[j].is_none() { ok = false; break; } }
+                    if !ok { continue; }
+                    let snapshot = c.pos();
+                    for _ in i..count { let _ = d(&mut c, alt); }
+                    st.seeks += 1;
+                    if c.seek(snapshot).is_err() {
+                        st.bad.push(("ChainCoder::seek | a position recorded from the same coder is refused".into(), format!("{NAME}: data {:x?} models {:?} snapshot after {i} symbols", data, models)));
+                        continue;
+                    }
+                    for j in i..count {
+                        let got = d(&mut c, models[j]);
+                        if got != base[j] {
+                            st.bad.push(("ChainCoder::seek | after seeking back, a symbol is no longer what its model assigns to its chunk".into(),
+                                format!("{NAME}: data {:x?} models {:?}: snapshot after {i} symbols, speculative decoding with {:?}, seek back: position {j} decodes {:?}, straight-through {:?}", data, models, alt, got, base[j])));
+                            break;
+                        }
+                        if got.is_none() { break; }
+                    }
+                }
+            }
         }
     };
 }
@@ -556,12 +592,13 @@ macro_rules! run_locality {
             let mut st = Stats::default();
             for s in &seqs {
                 $m::locality_case(d, s, alt, &mut st);
+                $m::seek_case(d, s, alt, &mut st);
                 if st.bad.len() > 50 { break; }
             }
             st
         }).reduce(Stats::default, |mut a, b| { a.merge(b); a });
         $report.section(json!({"coder": $m::NAME, "data": $label, "data_strings": datas.len(), "model_sequences": seqs.len(), "positions": $k,
-            "cases": st.cases, "reference_chunk_checks": st.ref_chunk_checks, "bit_flips": st.flips, "model_replacements": st.model_replacements, "wall_s": t.elapsed().as_secs_f64()}));
+            "seeks": st.seeks, "cases": st.cases, "reference_chunk_checks": st.ref_chunk_checks, "bit_flips": st.flips, "model_replacements": st.model_replacements, "wall_s": t.elapsed().as_secs_f64()}));
         $total.merge(st);
     }};
 }
@@ -576,6 +613,7 @@ fn finish(report: &Report, total: Stats, c14: bool) {
         report.count("reference_chunk_checks", total.ref_chunk_checks);
         report.count("single_bit_flips", total.flips);
         report.count("model_replacements", total.model_replacements);
+        report.count("seeks_back_after_speculative_decoding", total.seeks);
     } else {
         report.count("decode_calls", total.steps);
         report.count("continuations_restored", total.continuations);
@@ -716,7 +754,7 @@ pub fn run_c14(report: &Report) {
     let q = report.tier == Tier::Quick;
     report.bound("every word string of the listed lengths (from_binary) x model sequences of 5-6 positions; every single-bit flip of the data; a replacement model at every position");
     report.assume("the reference chunk map is an independent 20-line model of the bit buffer; with from_binary the number of words consumed by head initialisation is data independent");
-    for n in ["reference_chunk_checks", "single_bit_flips", "model_replacements", "ran_out_of_compressed_data"] {
+    for n in ["reference_chunk_checks", "single_bit_flips", "model_replacements", "ran_out_of_compressed_data", "seeks_back_after_speculative_decoding"] {
         report.require(n);
     }
     let all8: Vec<u8> = (0..=255u8).collect();
